@@ -188,6 +188,19 @@ package commitlog
 // (that every segment of the dropped prefix was handed to Delete() is proved per stage; its composition over the
 //  three stages needs an index-shifting argument the solvers do not find, so it is not claimed at this level)
 
+// setupIndex (open / reopen / after a rewrite): the segment's bounds are recovered from its index - the last offset and
+// the last write time (what the age limit measures, C09) from the LAST entry, the first offset and first write time
+// from the FIRST
+//@ ghost var lastRecovered *entry
+//@ ghost var firstRecovered *entry
+//@ func (*segment).setupIndex serves C09, C01
+//@   assumes s != nil
+//@   ghost at entry: ghost.lastRecovered := nil
+//@   ghost at entry: ghost.firstRecovered := nil
+//@   ghost after call recoverTail: ghost.lastRecovered := ret0
+//@   ghost after call ReadEntryAtFileOffset: ghost.firstRecovered := arg1
+//@   ensures [bounds-from-the-last-and-first-index-entries] result == nil && ghost.lastRecovered != nil ==> s.lastOffset == ghost.lastRecovered.Offset && s.lastWriteTime == ghost.lastRecovered.Timestamp && ghost.firstRecovered != nil && s.firstOffset == ghost.firstRecovered.Offset && s.firstWriteTime == ghost.firstRecovered.Timestamp
+
 // commitLog.Clean (retention and compaction run on a snapshot of the segment list with the lock RELEASED): while it
 // works, other goroutines may append segments (the quantifier's "cleans that run while new segments are appended").
 // Every segment appended meanwhile must still be in the log afterwards, behind the cleaned ones, in order.
